@@ -7,7 +7,7 @@ CONSTANTS
   Opts <- AllOpts
   MaxSet = 3
   Variant = "as_shipped"
-  Fixed = {}
+  Fixed = {"D1", "D4"}
   Targets = {0, 1, 2, 3}
   Combine = "typical"
 INVARIANT Emit
